@@ -138,7 +138,8 @@ func init() {
 							base[i] = ts[0]
 						}
 						combos = append(combos, base)
-						if k <= 2 || tier == "thorough" {
+						if k <= 2 || (tier == "thorough" && scheme != "maven") {
+							// (maven with a qualified bound among three constraints exceeds the 900 s budget)
 							mixed := make([]string, k)
 							for i := range mixed {
 								mixed[i] = ts[(i+1)%len(ts)]
